@@ -42,7 +42,7 @@ MODES = {
     # Miri on pointer-backed storage (Heap, instrumented backend): Stacked Borrows on
     "miri": dict(build=MIRI_BUILD, build_tail=["--", "configs"], runner=MIRI_RUNNER, target="miri",
                  env={"RUSTFLAGS": "--cfg any_vec_verif", "MIRIFLAGS": MIRI_BASE},
-                 hv_args=["--tool", "--mem", "heapguard"], classify=classify_miri),
+                 hv_args=["--tool", "--mem", "heapguard", "--sb"], classify=classify_miri),
     # Miri on the inline backends: borrow tracking off (DESIGN.md 1.8), bounds/UAF/init/alignment checks stay on
     "miri-stack": dict(build=MIRI_BUILD, build_tail=["--", "configs"], runner=MIRI_RUNNER, target="miri",
                        # leaks are ignored: a fixed-capacity vector legitimately leaks its tail when an operation beyond its capacity panics
@@ -51,7 +51,7 @@ MODES = {
     # Miri forced onto the production byte loop of copy_bytes (pointer-free elements only)
     "miri-realcopy": dict(build=MIRI_BUILD, build_tail=["--", "configs"], runner=MIRI_RUNNER, target="miri-realcopy",
                           env={"RUSTFLAGS": "--cfg any_vec_verif --cfg any_vec_verif_realcopy", "MIRIFLAGS": MIRI_BASE},
-                          hv_args=["--tool", "--mem", "heapguard", "--pointer-free"], classify=classify_miri),
+                          hv_args=["--tool", "--mem", "heapguard", "--pointer-free", "--sb"], classify=classify_miri),
     # AddressSanitizer on the production-flags build (full quick families, harness guard zones off)
     "asan": dict(build=["cargo", "+nightly", "build", "--offline", "--quiet", "--target", "x86_64-unknown-linux-gnu", "--profile", "relflags"],
                  bin="x86_64-unknown-linux-gnu/relflags/hv", env={"RUSTFLAGS": "-Zsanitizer=address -Cforce-frame-pointers=yes"},
@@ -71,7 +71,7 @@ MODES = {
     # leaks are permitted (C06/C07)
     "miri-noleak": dict(build=MIRI_BUILD, build_tail=["--", "configs"], runner=MIRI_RUNNER, target="miri",
                         env={"RUSTFLAGS": "--cfg any_vec_verif", "MIRIFLAGS": MIRI_BASE + " -Zmiri-ignore-leaks"},
-                        hv_args=["--tool", "--mem", "heapguard"], classify=classify_miri),
+                        hv_args=["--tool", "--mem", "heapguard", "--sb"], classify=classify_miri),
     # production semantics: wrapping arithmetic, no debug_assert, the real copy_bytes loop
     "rel": dict(build=CARGO + ["--profile", "relflags"], bin="relflags/hv"),
     # overflow checks, debug_assert, rustc's pointer checks
